@@ -72,7 +72,7 @@ pub fn run(ctx: &mut Ctx) {
     for (n, ok) in rzuc::selftest() {
         ctx.selftest(&n, ok);
     }
-    ctx.require(&["official_vectors", "structured", "random_keys", "compositions", "compositions_with_zero", "zero_len_first", "zero_len_middle", "zero_len_last", "single_request", "all_ones_requests", "random_splits", "lfsr_zero_feedback_init", "lfsr_zero_feedback_work"]);
+    ctx.require(&["official_vectors", "structured", "random_keys", "compositions", "compositions_with_zero", "zero_len_first", "zero_len_middle", "zero_len_last", "single_request", "all_ones_requests", "random_splits", "request_size_at_block_multiple", "lfsr_zero_feedback_init", "lfsr_zero_feedback_work"]);
 
     // --- official vectors through the library, several splits
     let k3 = [0x3d, 0x4c, 0x4b, 0xe9, 0x6a, 0x82, 0xfd, 0xae, 0xb5, 0x8f, 0x64, 0x1d, 0xb1, 0x7b, 0x45, 0x5b];
@@ -153,6 +153,22 @@ pub fn run(ctx: &mut Ctx) {
         }
     }
     ctx.exhaustive("compositions of totals 1..=12 into positive request sizes (4095), each also with one zero-length request at every position", true);
+
+    // --- single requests whose size sits on or next to a power of two / a multiple of 1024, followed by a short request
+    {
+        let mut pb = ctx.prng("block_sizes");
+        let sizes = [255usize, 256, 257, 511, 512, 513, 1023, 1024, 1025, 2047, 2048, 2049, 3072, 4096, 4097, 8192, 65535, 65536, 65537];
+        for (si, n) in sizes.iter().enumerate() {
+            let key: [u8; 16] = pb.arr();
+            let iv: [u8; 16] = pb.arr();
+            if !ctx.mine(si as u64) {
+                continue;
+            }
+            ctx.class("request_size_at_block_multiple");
+            history(ctx, &key, &iv, &[*n, 3], "request_size_at_block_multiple");
+            history(ctx, &key, &iv, &[5, *n], "request_size_at_block_multiple");
+        }
+    }
 
     // --- random keys, random splits of longer streams
     let n = ctx.n(400, 20_000);
